@@ -45,7 +45,11 @@ def run(prog, rep):
         if op in ("EW", "AW"):
             continue
         sem.check_shape(rep, "C01-R1", en, shape, alts, key, detail=f"{kind} {op} with a special operand")
-    rep.floor("C01-R1", 120)
+    for key, shape, alts, is_pattern in sem.pattern_shapes():
+        if not is_pattern:
+            # formulae that merely resemble a shortcut pattern are evaluated by the defining equations
+            sem.check_shape(rep, "C01-R1", en, shape, alts, "pattern-" + key, detail=key)
+    rep.floor("C01-R1", 140)
     # R2: recursive calls
     recs = [s for s in en.summ.sites if s.kind == "call" and s.is_call_to("eval_node")]
     for s in recs:
